@@ -488,7 +488,7 @@ func main() {
 	guard := vlib.NewGuard(a.Out)
 	nscen := 800
 	if a.Thorough() {
-		nscen = 30000
+		nscen = 15000
 	}
 	if strings.Contains(a.Extra, "search") {
 		nscen = 4000
